@@ -1,24 +1,21 @@
-"""Per-property configuration of ./check: required theorems, harness commands, trusted base."""
+"""Per-property configuration of ./check: one JSON file per property under checks/props/.
 
-REGISTRY = {
-    "C14": {
-        "level": "proof",
-        "level_text": "Full-strength theorems about the regenerated decision logic of MemoryInstance (Grow guard for every 32-bit delta, hasSize, page/byte conversions, the decoder's sizer and Validate) and an invariant over all grow histories; engine views proved for the repaired variant and shown to fail at 65536 pages for the as-is variant (witness theorem = findings F13/F14). Tie: definitions regenerated from /repo on every run plus an exhaustive-on-boundaries differential run of both engines and the host API against the Lean oracle.",
-        "level_note": "Trusted: Lean kernel + propext/Classical.choice/Quot.sound; the go/ast translator; the harness. Modelled not verified: buffer reallocation effects of Grow, machine code that caches the memory length (covered only by the differential run).",
-        "technique": "Lean 4 proof over BitVec models regenerated from the Go source; differential correspondence on boundary grids",
-        "theorems": [
-            "Wz.C14.hasSize_iff", "Wz.C14.grow_iff", "Wz.C14.grow_no_panic", "Wz.C14.decode_bounds",
-            "Wz.C14.decode_max_exact", "Wz.C14.grow_inv", "Wz.C14.growAll_inv", "Wz.C14.newMem_inv",
-            "Wz.C14.grow_preserves_bytes", "Wz.C14.beyond_len_zero", "Wz.C14.readByte_ok_iff",
-            "Wz.C14.views_agree_w64", "Wz.C14.views_agree_partial", "Wz.C14.view_4gib_witness",
-        ],
-        "harness": [{"cmd": "hc14", "timeout": {"quick": 600, "thorough": 1800}}],
-        "trusted": ["modelled, not verified: the effectful statements of MemoryInstance.Grow (buffer reallocation), "
-                    "the engines' machine-level use of the cached memory length"],
-        "assumptions": ["allocator contract: a shared memory is never moved by Reallocate",
-                        "Go slices/append behave as the language specification says"],
-    },
-}
+Keys: level, level_text, level_note, technique, theorems (names that must exist and be axiom-clean),
+harness [{cmd, args?, timeout?{quick,thorough}}], trusted [...], assumptions [...].
+NOT_APPLICABLE: property id -> reason, for properties that are not claimed."""
+import glob, json, os
+
+_here = os.path.dirname(os.path.abspath(__file__))
+REGISTRY = {}
+for _p in sorted(glob.glob(os.path.join(_here, "props", "C*.json"))):
+    REGISTRY[os.path.basename(_p)[:-5]] = json.load(open(_p))
 
 NOT_APPLICABLE = {}
+_na = os.path.join(_here, "not_applicable.json")
+if os.path.exists(_na):
+    NOT_APPLICABLE = json.load(open(_na))
+
 HOOK_COMMITS = []
+_hc = os.path.join(_here, "hook_commits.json")
+if os.path.exists(_hc):
+    HOOK_COMMITS = json.load(open(_hc))
